@@ -13,7 +13,7 @@
    arc of H = {u->v | delay u v <= dur u} with v not initially recovered, d its
    delay.  [hpath ... v c]: a path of cost c from the initially infected set to v
    in H.  [ltmax tmax t]: t < tmax. *)
-From EoNV Require Import Prelude Samp Graph EventSIR EventSIRP EventSIRInv EventSIRMain EventSIRChar EventSIRTop EventSIROut EventSIRPerc EventSIRReach.
+From EoNV Require Import Prelude Samp Graph EventSIR EventSIRP EventSIRInv EventSIRMain EventSIRChar EventSIRTop EventSIROut EventSIRPerc EventSIRReach EventSIRPred.
 
 (* --- the main statement: for EVERY tie policy, every fuel >= |I0| + sum_v (deg v + 1):
    the loop ends with an empty queue, fuel not exhausted, and
@@ -108,17 +108,25 @@ Theorem esir_det_arrays : forall tb g delay dur i0 r0 tmin tmax fuel sF,
 Proof. exact EventSIROut.esir_det_arrays. Qed.
 Print Assumptions esir_det_arrays.
 
-(* _partial: that esir_det with full data never takes its ValueErr branch (an infinite
-   time inside a node history) and that the infection entry of a history equals the time in
-   transmissions() needs the extra invariant J3b "every queued transmission to a susceptible
-   w is no earlier than pred_inf_time w" (DESIGN A.1); it is validated by the correspondence
-   (histories compared on every case) but not proved.  What is proved is conditional: *)
-Theorem esir_det_transmissions_partial : forall tb g delay dur i0 r0 tmin tmax fuel sF o cs,
+(* both return modes return (the ValueErr branch of the model = an infinite time inside a node
+   history is unreachable), and for every infected node pred_inf_time = its infection time in
+   transmissions() (DESIGN A.1 J3b; the code's comment "when finally infected, pred_inf_time is
+   correct"), so the infection entry of node_history agrees with transmissions() *)
+Theorem esir_det_full : forall tb g delay dur i0 r0 tmin tmax full fuel,
+  esir_okb g delay dur i0 r0 tmin tmax = true -> (esir_fuel g i0 <= fuel)%nat ->
+  exists sF o cs, esir_run tb g delay dur i0 r0 tmin tmax fuel = Ok sF /\
+    esir_det tb g delay dur i0 r0 tmin tmax full fuel = Ok (o, cs) /\
+    (forall t sr v, In (t, sr, v) (tlog sF) -> exists p, predt sF v = Some (Some p) /\ p == t).
+Proof. exact esir_det_full_ok. Qed.
+Print Assumptions esir_det_full.
+
+(* when full data is returned its transmissions() is the log the theorems speak about *)
+Theorem esir_det_transmissions : forall tb g delay dur i0 r0 tmin tmax fuel sF o cs,
   esir_run tb g delay dur i0 r0 tmin tmax fuel = Ok sF ->
   esir_det tb g delay dur i0 r0 tmin tmax true fuel = Ok (o, cs) ->
   exists hs, so_full o = Some (mkFull hs (rev (tlog sF))) /\ cs = rev (olog sF).
-Proof. exact esir_det_transmissions. Qed.
-Print Assumptions esir_det_transmissions_partial.
+Proof. exact EventSIROut.esir_det_transmissions. Qed.
+Print Assumptions esir_det_transmissions.
 
 (* percolation builders: nonMarkov_directed_percolate_network_with_timing builds exactly H
    (same nodes; attribute duration; arc u->v with attribute delay iff delay <= duration) *)
